@@ -78,25 +78,25 @@ def expected_outcome_violation(k: str, outcome, message) -> str | None:
     return None
 
 
-SMALL = dict(seeds=16, groups=None, crash_points=32, switch_points=16)
+SMALL = dict(seeds=8, groups=None, crash_points=16, switch_points=8)
 
 PROPERTIES = {
     "C01": dict(
         title="linear steppers: exact solution whatever happened before / concurrently",
         select=lambda k, m: cls(k) in LINEAR or k == "eager:DiffultyLinearStepperSimple",
-        quick=dict(seeds=24, groups=None),
+        quick=dict(seeds=12, groups=None),
         thorough=dict(seeds=400, groups=None),
     ),
     "C02": dict(
         title="ETDRK integrators of order 0-4 (directly and through every nonlinear stepper class): coefficients and steps",
         select=lambda k, m: k.startswith("etdrk") or (cls(k) is not None and cls(k) not in LINEAR and form(k) in NONLINEAR_FORMS),
-        quick=dict(seeds=20, groups=24),
+        quick=dict(seeds=10, groups=16),
         thorough=dict(seeds=400, groups=None),
     ),
     "C03": dict(
         title="nonlinear functions called directly (every class, two dealiasing fractions, both resolutions) and through the nonlinear steppers",
         select=lambda k, m: k.startswith(("nonlin:", "nonlin_fun[")) or (cls(k) is not None and cls(k) not in LINEAR and form(k) == "eager"),
-        quick=dict(seeds=20, groups=16),
+        quick=dict(seeds=10, groups=16),
         thorough=dict(seeds=400, groups=None),
     ),
     "C04": dict(
@@ -114,37 +114,37 @@ PROPERTIES = {
     "C06": dict(
         title="eager / jit / vmap / scan / parameter-vmap / construct-inside-jit programs of every stepper",
         select=lambda k, m: cls(k) is not None and form(k) in ("eager", "jit", "vmap", "rollout", "param-vmap", "jit-construct", "shared-call", "repeated"),
-        quick=dict(seeds=24, groups=28),
+        quick=dict(seeds=12, groups=16),
         thorough=dict(seeds=500, groups=None),
     ),
     "C07": dict(
         title="gradient and JVP programs of every stepper class",
         select=lambda k, m: (cls(k) is not None and form(k) in ("grad", "jvp")) or k.startswith(("shared-fn:rollout-jvp", "shared-fn:rollout-grad", "shared-fn:rollout[")),
-        quick=dict(seeds=20, groups=36),
+        quick=dict(seeds=10, groups=20),
         thorough=dict(seeds=400, groups=None),
     ),
     "C08": dict(
         title="one step of every stepper class and option twin, in 1-3 dimensions",
         select=lambda k, m: cls(k) is not None and form(k) in ("eager", "shared-call"),
-        quick=dict(seeds=20, groups=28),
+        quick=dict(seeds=10, groups=16),
         thorough=dict(seeds=400, groups=None),
     ),
     "C09": dict(
         title="conservation along histories of steps: spatial mean of every conservation-form stepper (orders 1-4, N incl. multiples of 6), no work by the convective terms, constant equilibria -- invariant oracle",
         select=lambda k, m: False,
-        quick=dict(seeds=16, groups=None, crash_points=24, switch_points=16),
+        quick=dict(seeds=8, groups=None, crash_points=12, switch_points=8),
         thorough=dict(seeds=300, groups=None),
     ),
     "C10": dict(
         title="incompressibility: Leray / make_incompressible (divergence, idempotence, agreement) and the 3D velocity steppers along histories of steps -- invariant oracle",
         select=lambda k, m: k.startswith(("make-incompressible", "nonlin:Leray")),
-        quick=dict(seeds=16, groups=None, crash_points=24, switch_points=16),
+        quick=dict(seeds=8, groups=None, crash_points=12, switch_points=8),
         thorough=dict(seeds=300, groups=None),
     ),
     "C11": dict(
         title="no amplification: L2 norm along histories of steps of every single-field linear stepper (broadband states, three dt, 1-3 D) -- invariant oracle",
         select=lambda k, m: False,
-        quick=dict(seeds=16, groups=None, crash_points=24, switch_points=16),
+        quick=dict(seeds=8, groups=None, crash_points=12, switch_points=8),
         thorough=dict(seeds=300, groups=None),
     ),
     "C12": dict(
@@ -156,7 +156,7 @@ PROPERTIES = {
     "C13": dict(
         title="generic, normalized and difficulty stepper families and the conversion functions",
         select=lambda k, m: (cls(k) or "").startswith("stepper.generic.") or k.startswith(("conversions[", "generic-utils", "eager:DiffultyLinearStepperSimple")),
-        quick=dict(seeds=20, groups=28),
+        quick=dict(seeds=10, groups=16),
         thorough=dict(seeds=400, groups=None),
     ),
     "C14": dict(
@@ -165,7 +165,7 @@ PROPERTIES = {
             "rollout", "repeated", "forced", "repeat", "rollout-aux", "stack_sub_trajectories", "build_ic_set", "build_ic_set/GRF",
             "rollout-n", "repeated-n", "shared-repeated", "shared-forced", "forced-step", "shared-fn",
         ),  # fmt: skip
-        quick=dict(seeds=24, groups=36),
+        quick=dict(seeds=12, groups=20),
         thorough=dict(seeds=400, groups=None),
     ),
     "C15": dict(
@@ -189,19 +189,19 @@ PROPERTIES = {
     "C18": dict(
         title="initial-condition generators: output is a function of (options, N, key) only",
         select=lambda k, m: any(e.startswith("exponax.ic.") or e == "exponax.build_ic_set" for e in m["exports"]) and not k.startswith("reject:"),
-        quick=dict(seeds=24, groups=None),
+        quick=dict(seeds=12, groups=None),
         thorough=dict(seeds=800, groups=None),
     ),
     "C19": dict(
         title="coefficients and steps follow the precision session in force, across session switches",
         select=lambda k, m: (cls(k) is not None and form(k) in ("construct", "eager", "jit-construct", "grad")) or k.startswith("etdrk"),
-        quick=dict(seeds=24, groups=28),
+        quick=dict(seeds=12, groups=16),
         thorough=dict(seeds=500, groups=None),
     ),
     "C20": dict(
         title="malformed states and unsupported configurations stay rejected (same exception type) in every history",
         select=lambda k, m: k.startswith("reject:") or (cls(k) is not None and form(k) == "eager" and "twin" not in k and primary_size(k)),
-        quick=dict(seeds=16, groups=None, crash_points=32, switch_points=24),
+        quick=dict(seeds=8, groups=None, crash_points=16, switch_points=12),
         thorough=dict(seeds=300, groups=None),
     ),
 }
@@ -248,8 +248,8 @@ def main():
         select=select, isolate_reference=args.tier == "thorough", replay_sample=6 if args.tier == "quick" else 48,
         replay_dir=os.path.join(VERIF, "replays"), label=prop, run_wall_cap=600.0, worker_timeout=2400.0,
         min_budget=40, plans_per_worker=3 if args.tier == "quick" else 6,
-        crash_points=tier_cfg.get("crash_points", 48 if args.tier == "quick" else None),
-        switch_points=tier_cfg.get("switch_points", 24 if args.tier == "quick" else None),
+        crash_points=tier_cfg.get("crash_points", 24 if args.tier == "quick" else None),
+        switch_points=tier_cfg.get("switch_points", 12 if args.tier == "quick" else None),
         switch_cap=240 if args.tier == "quick" else 6000,
         focus_cap=96 if args.tier == "quick" else 400,
     )  # fmt: skip
